@@ -7,7 +7,7 @@
 #include <stdio.h>
 
 #define NTHREADS 16
-static pixman_image_t *shared, *shared_grad, *shared_clipped, *shared_acc, *shared_tile;
+static pixman_image_t *shared, *shared_grad, *shared_clipped, *shared_acc, *shared_tile, *shared_solid;
 static uint32_t tile8[2 * TILE_STRIDE_WORDS], tile16[2 * TILE_STRIDE_WORDS];
 static pthread_barrier_t bar;
 static int rounds = 40;
@@ -16,7 +16,7 @@ static void *worker(void *v)
 {
     int tid = (int)(intptr_t)v;
     for (int r = 0; r < rounds; r++) {
-        tctx_t t; body_setup(&t, tid % 3, shared); t.shared_grad = shared_grad; t.shared_clipped = shared_clipped; t.shared_acc = shared_acc; t.shared_tile = shared_tile; t.tile8 = tile8; t.tile16 = tile16; t.tile_ix = tid;
+        tctx_t t; body_setup(&t, tid % 3, shared); t.tid = tid % 3; t.shared_grad = shared_grad; t.shared_clipped = shared_clipped; t.shared_acc = shared_acc; t.shared_tile = shared_tile; t.shared_solid = shared_solid; t.tile8 = tile8; t.tile16 = tile16; t.tile_ix = tid;
         pthread_barrier_wait(&bar);
         for (int k = 0; k < N_ALL_OPS; k++) body_run(&t, (k + tid + r) % N_ALL_OPS);
         body_teardown(&t);
@@ -44,6 +44,8 @@ int main(int argc, char **argv)
     static uint32_t apix[DW * DH];
     shared_acc = body_make_shared_acc(apix);
     pixman_image_composite32(PIXMAN_OP_OVER, shared_acc, NULL, d, 0, 0, 0, 0, 0, 0, DW, DH);
+    { pixman_color_t c = { 0x8000, 0x4000, 0x2000, 0xc000 }; shared_solid = pixman_image_create_solid_fill(&c);
+      pixman_image_composite32(PIXMAN_OP_ATOP, shared_solid, NULL, d, 0, 0, 0, 0, 0, 0, DW, DH); }        /* first use on the main thread, 3 pixels wide */
     pixman_image_unref(d);
     pthread_barrier_init(&bar, NULL, NTHREADS);
     pthread_t th[NTHREADS];
@@ -55,6 +57,7 @@ int main(int argc, char **argv)
     if (!pixman_image_unref(shared_clipped)) refs_bad |= 4;
     if (!pixman_image_unref(shared_acc)) refs_bad |= 8;
     if (!pixman_image_unref(shared_tile)) refs_bad |= 16;
+    if (!pixman_image_unref(shared_solid)) refs_bad |= 32;
     if (refs_bad) printf("SHARED-IMAGE-STILL-REFERENCED mask=%d (the harness held the only reference to each shared image)\n", refs_bad);
     printf("TSAN-PASS-DONE threads=%d rounds=%d ops=%d\n", NTHREADS, rounds, NTHREADS * rounds * N_ALL_OPS);
     return 0;
